@@ -361,7 +361,50 @@ PROPS = {
         assumptions=['bytearray.fromhex / re.sub behave as documented (from_hex clause)'],
         trusted_base=[],
     ),
+    'C19': dict(
+        level='proof',
+        text='write_syx_file and read_syx_file are executed symbolically with builtins.open replaced by a file model. Proved for '
+             'message lists of every sysex/non-sysex mix of length 0..3 with payloads of ANY length and content: the binary '
+             'writer opens one file \'wb\', writes exactly the concatenation F0 payload F7 of the sysex messages in order and closes '
+             'it. The reader is proved structurally: empty file -> []; first byte F0 -> the whole content is fed to one Parser and '
+             'its messages are filtered by type == sysex; otherwise the text is decoded latin1, whitespace-normalised by re.sub '
+             'and bytearray.fromhex\'d, a ValueError of fromhex propagates. That the parser yields exactly the encoded sysex '
+             'messages is C04/C05 (feed contract); hex formatting/parsing, the plaintext writer and the end-to-end round trip are '
+             'bounded stand-ins on the real code.',
+        note='trusted: pyvc, z3/cvc5, file model of open(); ASSUMED models of re.sub, bytearray.fromhex, Parser.feed (its contract is proved under C04/C05)',
+        clauses=[
+            ['binary writer: content == concatenation of sysex encodings, non-sysex dropped, any payload length (lists up to 3)', 'P'],
+            ['reader structure: empty -> [], F0 -> parser, else latin1 + whitespace strip + fromhex; only sysex kept; ValueError propagates', 'PA'],
+            ['round trip both formats, whitespace layouts, non-hex text -> ValueError, payload 0..5000', 'B'],
+        ],
+        assumptions=['open()/file object model', 're.sub and bytearray.fromhex behave as documented', 'Parser contract (proved in C04/C05) composes with the reader'],
+        trusted_base=[],
+    ),
+    'C20': dict(
+        level='proof',
+        text='the configuration space of C20 is finite; the real Backend.__init__/load/module/_env/_add_api/open_input/open_output/'
+             'open_ioport/_get_devices/get_*_names are executed symbolically on the full grid (8640 configurations: backend name '
+             'absent/plain/with API suffix x MIDO_BACKEND unset/plain/with suffix x api keyword x use_environ x native IOPort x '
+             'get_devices x operation x each relevant MIDO_DEFAULT_* variable set/unset x explicit port name x api in the call x load), '
+             'with port names, api strings and environment values SYMBOLIC (any non-empty string), the backend module an abstract '
+             'recording object and importlib.import_module / os.environ.get modelled. Each configuration proves: module name '
+             'without suffix, imported exactly once and not before first use (unless load), explicit name beats environment beats '
+             'None, explicit api beats keyword/suffix api and reaches every constructor and device query, native IOPort vs wrapper '
+             'pair, name listings. The same grid with concrete strings plus set_backend rebinding is run on the real code natively '
+             '(exhaustive, 9217 configurations).',
+        note='trusted: pyvc, z3/cvc5; ASSUMED: importlib.import_module(name) imports the named module once, os.environ.get is a mapping lookup; '
+             'explicit port names / api strings / environment values are non-empty (the code treats \'\' as absent)',
+        clauses=[
+            ['name/api split, lazy single import, load flag', 'P'],
+            ['port name precedence explicit > environment (only with use_environ) > None, for any strings', 'P'],
+            ['api precedence call kwarg > api keyword > name suffix; reaches Input/Output/IOPort/get_devices', 'P'],
+            ['native IOPort vs ports.IOPort(Input, Output) wrapper; I/O names = inputs that are outputs, in input order', 'P'],
+            ['set_backend rebinds the six top-level functions; concrete exhaustive grid on the real interpreter', 'B (exhaustive)'],
+        ],
+        assumptions=['import_module/os.environ models', 'non-empty strings'],
+        trusted_base=[],
+    ),
 }
 
 NOT_APPLICABLE = {pid: _PENDING for pid in
-                  ['C18', 'C19', 'C20']}
+                  ['C18']}
